@@ -479,6 +479,58 @@ def last_iteration_leaks(fn: FuncInfo):
                     yield x, x.id, L
 
 
+def loop_index_after_loop(fn: FuncInfo):
+    """(load node, name, loop): the ITERATION VARIABLE of a `for` loop over a range / a sequence is read after the loop has
+    ended (the loop is never left early, and nothing re-binds the name in between): what is read is the last element, in
+    a place where the code before the loop spoke of a different index (typically the function's own `k`)."""
+    stmts = stmts_in_order(fn)
+    order = {id(s): i for i, s in enumerate(stmts)}
+    comp_scoped = set()
+    for x in ast.walk(fn.node):
+        if isinstance(x, (ast.ListComp, ast.SetComp, ast.DictComp, ast.GeneratorExp)):
+            for g in x.generators:
+                for t in ast.walk(g.target):
+                    if isinstance(t, ast.Name):
+                        comp_scoped.add(t.id + '@%d' % id(x))
+    loops = [s for s in stmts if isinstance(s, ast.For)]
+    for L in loops:
+        if any(isinstance(x, (ast.Break, ast.Return)) for x in ast.walk(L)):
+            continue
+        tnames = {t.id for t in ast.walk(L.target) if isinstance(t, ast.Name)}
+        if not tnames:
+            continue
+        inside = {id(x) for x in ast.walk(L)}
+        # the name must not be bound anywhere else (parameter, assignment, other loop)
+        for name in sorted(tnames):
+            if name in fn.params:
+                continue
+            other_stores = [x for x in ast.walk(fn.node) if isinstance(x, ast.Name) and x.id == name and isinstance(x.ctx, ast.Store)
+                            and id(x) not in inside]
+            if other_stores:
+                continue
+            for s in stmts:
+                if id(s) in inside or order[id(s)] < order[id(L)] or isinstance(s, (ast.FunctionDef, ast.AsyncFunctionDef, ast.ClassDef)):
+                    continue
+                own = []
+                for fld, v in ast.iter_fields(s):
+                    if fld in ('body', 'orelse', 'finalbody', 'handlers'):
+                        continue
+                    for x in (v if isinstance(v, list) else [v]):
+                        if isinstance(x, ast.AST):
+                            own.extend(ast.walk(x))
+                comp_bound = set()
+                for x in own:
+                    if isinstance(x, (ast.ListComp, ast.SetComp, ast.DictComp, ast.GeneratorExp)):
+                        for g in x.generators:
+                            comp_bound |= {t.id for t in ast.walk(g.target) if isinstance(t, ast.Name)}
+                    if isinstance(x, ast.Lambda):
+                        comp_bound |= {a.arg for a in x.args.args}
+                hit = next((x for x in own if isinstance(x, ast.Name) and isinstance(x.ctx, ast.Load) and x.id == name and name not in comp_bound), None)
+                if hit is not None:
+                    yield hit, name, L
+                    break
+
+
 def check_per_iteration_leaks(ctx, rule: str, module_paths, floor: int = 0) -> int:
     ctx.rule(rule, 'a per-iteration quantity (bound only inside one loop, from that loop\'s iteration variable) is never read by a different, '
                    'later loop (which would see the last iteration\'s value for every element)', floor=floor)
@@ -492,10 +544,16 @@ def check_per_iteration_leaks(ctx, rule: str, module_paths, floor: int = 0) -> i
             if not loops:
                 continue
             hits = list(last_iteration_leaks(fn))
+            after = list(loop_index_after_loop(fn))
             construct = fn.qualname
             ctx.instance(rule, construct)
             n += 1
-            ctx.obligation(rule, construct, not hits, {'leaks': sorted({h[1] for h in hits})} if hits else None, nontrivial=len(loops) > 1)
+            ctx.obligation(rule, construct, not hits and not after, {'leaks': sorted({h[1] for h in hits}), 'index_read_after_loop': sorted({h[1] for h in after})}
+                           if hits or after else None, nontrivial=True)
+            for node, name, L in after[:1]:
+                ctx.violation(rule, construct, 'the iteration variable `%s` of the loop at line %d is read after the loop has ended (line %d): it holds '
+                              'the LAST element there, whatever index the surrounding code is about' % (name, L.lineno, node.lineno),
+                              fn.path, node.lineno, operand='after-loop:' + name)
             for node, name, L in hits[:1]:
                 ctx.violation(rule, construct, '`%s` is bound only inside the loop at line %d (a per-iteration value derived from `%s`) and read '
                               'inside the later loop at line %d: every iteration there sees the value of the last iteration that bound it'
@@ -1107,4 +1165,399 @@ def check_accumulators_initialised(ctx, rule: str, module_paths, floor: int = 0)
                 ctx.violation(rule, construct, '`%s = %s` holds arbitrary memory and is accumulated into at line %d before anything was stored '
                               'in it: the result is the sum plus garbage (use np.zeros)' % (name, norm(call)[:50], node.lineno),
                               fn.path, node.lineno, operand='empty-accumulator:' + name)
+    return n
+
+
+# ---------------------------------------------------------------------------------------------------------------
+def unused_parameters(fn: FuncInfo):
+    """names of parameters that the body never reads (not `self`/`cls`, not `_`-prefixed, not *args/**kwargs), for functions that
+    do something: a body that only raises / passes / returns a constant (abstract method, stub) has no obligations."""
+    body = [s for s in fn.node.body if not (isinstance(s, ast.Expr) and isinstance(s.value, ast.Constant))]
+    if not body or all(isinstance(s, (ast.Pass, ast.Raise)) for s in body):
+        return []
+    if isinstance(body[-1], ast.Raise) and not any(isinstance(n, ast.Return) and n.value is not None for n in ast.walk(fn.node)):
+        return []
+    if len(body) == 1 and isinstance(body[0], ast.Return) and (body[0].value is None or isinstance(body[0].value, ast.Constant)):
+        return []
+    used = {n.id for n in ast.walk(fn.node) if isinstance(n, ast.Name) and isinstance(n.ctx, (ast.Load, ast.Del))}
+    # locals() / vars() read every parameter
+    if any(isinstance(n, ast.Call) and norm(n.func) in ('locals', 'vars') for n in ast.walk(fn.node)):
+        return []
+    a = fn.node.args
+    ps = [x.arg for x in a.posonlyargs + a.args + a.kwonlyargs]
+    return [p for p in ps if p not in used and p not in ('self', 'cls') and not p.startswith('_')]
+
+
+def check_parameters_used(ctx, rule: str, module_paths, floor: int = 0) -> int:
+    ctx.rule(rule, 'every parameter of a function that does something is read by its body: an option that is accepted and then ignored (no longer '
+                   'forwarded to the helper that implements it) silently falls back to that helper\'s default', floor=floor)
+    M = ctx.model
+    n = 0
+    for path in module_paths:
+        mod = M.module(path)
+        fns = [f for c in mod.classes.values() for f in list(c.methods.values()) + list(c.setters.values())] + list(mod.functions.values())
+        for fn in fns:
+            a = fn.node.args
+            if not (a.posonlyargs or a.args or a.kwonlyargs):
+                continue
+            # private helpers may share a uniform signature with their siblings (dispatch-table slots); the rule is about the public API
+            if fn.name.startswith('_') and not (fn.name.startswith('__') and fn.name.endswith('__')):
+                continue
+            construct = fn.qualname
+            ctx.instance(rule, construct)
+            n += 1
+            un = unused_parameters(fn)
+            # an override may ignore a parameter of the interface it implements
+            if un and fn.cls is not None:
+                for b in M.mro(fn.cls)[1:]:
+                    m = b.methods.get(fn.name)
+                    if m is not None:
+                        un = [p for p in un if p not in m.params]
+            ctx.obligation(rule, construct, not un, {'never_read': un} if un else None, nontrivial=len(fn.params) > 1)
+            for p in un[:1]:
+                ctx.violation(rule, construct, 'parameter `%s` is accepted but never read: callers that pass it get the behaviour of the default' % p,
+                              fn.path, fn.lineno, operand='unused:' + p)
+    return n
+
+
+# ---------------------------------------------------------------------------------------------------------------
+def unforwarded_options(model, fn: FuncInfo):
+    """(call node, option, callee names): fn has a parameter `p`; it calls a method / function `m` such that EVERY definition of `m`
+    in the package takes a parameter of the same name `p`, and the call passes neither a positional argument in that slot nor
+    the keyword - the option the caller was given is silently replaced by the callee's default."""
+    a = fn.node.args
+    own = [x.arg for x in a.posonlyargs + a.args + a.kwonlyargs if x.arg not in ('self', 'cls')]
+    if not own:
+        return
+    index = model.__dict__.setdefault('_fn_by_name', None)
+    if index is None:
+        index = {}
+        for g in model.all_functions():
+            if g.kind != 'nested':
+                index.setdefault(g.name, []).append(g)
+        model.__dict__['_fn_by_name'] = index
+    # innermost statement list containing each node
+    block_of = {}
+    for owner in ast.walk(fn.node):
+        for fld in ('body', 'orelse', 'finalbody'):
+            b = getattr(owner, fld, None)
+            if isinstance(b, list) and b and isinstance(b[0], ast.stmt):
+                for st in b:
+                    for x in ast.walk(st):
+                        block_of[id(x)] = b            # later (inner) owners overwrite outer ones: ast.walk is breadth-first
+    for n in walk_no_nested(fn.node):
+        if not isinstance(n, ast.Call):
+            continue
+        name = n.func.attr if isinstance(n.func, ast.Attribute) else n.func.id if isinstance(n.func, ast.Name) else None
+        if name is None:
+            continue
+        root = n.func
+        while isinstance(root, (ast.Attribute, ast.Subscript, ast.Call)):
+            root = root.func if isinstance(root, ast.Call) else root.value
+        if isinstance(root, ast.Name) and root.id in own:
+            continue                                        # a method of the argument itself (an external object)
+        cands = index.get(name, [])
+        if not cands or any(isinstance(x, ast.Starred) for x in n.args) or any(k.arg is None for k in n.keywords):
+            continue
+        for p in own:
+            slots = []
+            for g in cands:
+                ga = g.node.args
+                names = [x.arg for x in ga.posonlyargs + ga.args]
+                if g.kind in ('method', 'getter', 'setter', 'classmethod') and names and names[0] in ('self', 'cls'):
+                    names = names[1:]
+                kwonly = [x.arg for x in ga.kwonlyargs]
+                if p in names:
+                    ndef = len(ga.defaults)
+                    has_default = names.index(p) >= len(names) - ndef if g.kind not in ('method', 'getter', 'setter', 'classmethod') or True else False
+                    slots.append((names.index(p), has_default))
+                elif p in kwonly:
+                    slots.append((None, True))
+                else:
+                    slots = None
+                    break
+            if not slots or not all(hd for _, hd in slots):
+                continue
+            passed = any(k.arg == p for k in n.keywords) or any(pos is not None and len(n.args) > pos for pos, _ in slots)
+            if passed:
+                continue
+            # the option is used in another way in the same block (e.g. handed over under another name): not dropped
+            blk = block_of.get(id(n), fn.node.body)
+            if any(isinstance(x, ast.Name) and x.id == p and isinstance(x.ctx, ast.Load) for st in blk if not isinstance(st, ast.Assert)
+                   for x in ast.walk(st)):
+                continue                                    # (type assertions on the option are not a use of it)
+            yield n, p, sorted({g.qualname for g in cands})
+
+
+def check_options_forwarded(ctx, rule: str, module_paths, floor: int = 0) -> int:
+    ctx.rule(rule, 'an optional parameter that a function shares by name with EVERY definition of a callee is forwarded to that callee '
+                   '(positionally or by keyword) - it is not silently replaced by the callee\'s default', floor=floor)
+    M = ctx.model
+    n = 0
+    for path in module_paths:
+        mod = M.module(path)
+        fns = [f for c in mod.classes.values() for f in list(c.methods.values()) + list(c.setters.values())] + list(mod.functions.values())
+        for fn in fns:
+            if not any(isinstance(x, ast.Call) for x in walk_no_nested(fn.node)) or len(fn.params) < 2:
+                continue
+            construct = fn.qualname
+            ctx.instance(rule, construct)
+            n += 1
+            hits = list(unforwarded_options(M, fn))
+            ctx.obligation(rule, construct, not hits, {'dropped': [(norm(h[0])[:50], h[1]) for h in hits]} if hits else None, nontrivial=bool(hits))
+            for node, p, callees in hits[:1]:
+                ctx.violation(rule, construct, '`%s` does not pass on the option `%s` that every definition of the callee (%s) accepts: callers '
+                              'of %s that set `%s` get the callee\'s default instead' % (norm(node)[:60], p, ', '.join(callees)[:80], fn.name, p),
+                              fn.path, node.lineno, operand='dropped:' + p)
+    return n
+
+
+# ---------------------------------------------------------------------------------------------------------------
+def property_reads(model, cls, depth: int = 3) -> dict:
+    """{property name: set of attributes its getter reads, directly or through other properties of the class}"""
+    getters = {}
+    for c in model.mro(cls):
+        for name, g in c.getters.items():
+            getters.setdefault(name, g)
+    out = {}
+
+    def reads(name, d):
+        g = getters.get(name)
+        if g is None or d > depth:
+            return set()
+        sn = g.self_name or 'self'
+        r = set()
+        for n in ast.walk(g.node):
+            if isinstance(n, ast.Attribute) and isinstance(n.value, ast.Name) and n.value.id == sn and isinstance(n.ctx, ast.Load):
+                if n.attr in getters and n.attr != name:
+                    r |= reads(n.attr, d + 1)
+                else:
+                    r.add(n.attr)
+        return r
+    for name in getters:
+        out[name] = reads(name, 0)
+    return out
+
+
+def stale_derived_reads(model, cls, fn: FuncInfo):
+    """(use node, local, property, attribute): inside a mutator, a local is bound to a derived property of the object (its getter
+    reads attribute A) BEFORE the statement that overwrites A, and the local is used AFTER that statement: what is used is the
+    value derived from the OLD A.  Locals whose name says so (old_*, prev_*, previous_*, *_before, *_old) are meant to."""
+    sn = fn.self_name
+    if sn is None:
+        return
+    props = property_reads(model, cls)
+    stmts = stmts_in_order(fn)
+    order = {id(s): i for i, s in enumerate(stmts)}
+    stores = []                                  # (index, attribute)
+    for s in stmts:
+        if isinstance(s, (ast.Assign, ast.AugAssign, ast.AnnAssign)):
+            for t in (s.targets if isinstance(s, ast.Assign) else [s.target]):
+                if isinstance(t, ast.Attribute) and isinstance(t.value, ast.Name) and t.value.id == sn:
+                    stores.append((order[id(s)], t.attr))
+    if not stores:
+        return
+    for s in stmts:
+        if not (isinstance(s, ast.Assign) and len(s.targets) == 1 and isinstance(s.targets[0], ast.Name)):
+            continue
+        loc = s.targets[0].id
+        low = loc.lower()
+        if low.startswith(('old', 'prev', 'previous', 'orig', 'saved', 'former')) or low.endswith(('_old', '_before', '_prev', '_orig')):
+            continue
+        derived = [(n.attr, props[n.attr]) for n in ast.walk(s.value) if isinstance(n, ast.Attribute) and isinstance(n.value, ast.Name)
+                   and n.value.id == sn and n.attr in props]
+        i = order[id(s)]
+        for pname, reads in derived:
+            for j, a in stores:
+                if j > i and a in reads and a != pname:
+                    # rebinding of the local between the store and the use cancels it
+                    rebinds = [order[id(x)] for x in stmts if isinstance(x, ast.Assign) and any(isinstance(t, ast.Name) and t.id == loc for t in x.targets)
+                               and order[id(x)] > i]
+                    for u in stmts:
+                        k = order[id(u)]
+                        if k <= j or any(i < r <= k for r in rebinds):
+                            continue
+                        own = []
+                        for fld, v in ast.iter_fields(u):
+                            if fld in ('body', 'orelse', 'finalbody', 'handlers'):
+                                continue
+                            for x in (v if isinstance(v, list) else [v]):
+                                if isinstance(x, ast.AST):
+                                    own.extend(ast.walk(x))
+                        hit = next((x for x in own if isinstance(x, ast.Name) and x.id == loc and isinstance(x.ctx, ast.Load)), None)
+                        if hit is not None:
+                            yield hit, loc, pname, a
+                            break
+
+
+def check_no_stale_derived(ctx, rule: str, module_paths, floor: int = 0) -> int:
+    ctx.rule(rule, 'inside a mutator, a value read from a DERIVED property of the object before the attribute it derives from is overwritten is '
+                   'not used after the overwrite (it describes the old state; locals named old_/prev_/... are exempt)', floor=floor)
+    M = ctx.model
+    n = 0
+    for path in module_paths:
+        mod = M.module(path)
+        for c in mod.classes.values():
+            for fn in list(c.methods.values()) + list(c.setters.values()):
+                sn = fn.self_name
+                if sn is None or not any(isinstance(x, ast.Attribute) and isinstance(x.ctx, ast.Store) and isinstance(x.value, ast.Name)
+                                         and x.value.id == sn for x in ast.walk(fn.node)):
+                    continue
+                construct = fn.qualname
+                ctx.instance(rule, construct)
+                n += 1
+                hits = list(stale_derived_reads(M, c, fn))
+                ctx.obligation(rule, construct, not hits, {'stale': [(h[1], h[2], h[3]) for h in hits]} if hits else None, nontrivial=bool(hits))
+                for node, loc, pname, a in hits[:1]:
+                    ctx.violation(rule, construct, '`%s` is read from the derived property `%s` before `self.%s` (from which it is derived) is overwritten, and '
+                                  'used after that at line %d: the value belongs to the old state' % (loc, pname, a, node.lineno),
+                                  fn.path, node.lineno, operand='stale:' + loc)
+    return n
+
+
+# ---------------------------------------------------------------------------------------------------------------
+def tolerance_selected_returns(fn: FuncInfo):
+    """(if node, call): an `if` whose test calls np.isclose / np.allclose / math.isclose WITHOUT explicit tolerances and whose
+    branch returns: the result is then computed by another formula for every input within the DEFAULT absolute tolerance
+    (1e-8) of the special case - inputs that are dimensional quantities (Hz x s, linear power gains) live well below that."""
+    for n in walk_no_nested(fn.node):
+        if not isinstance(n, ast.If):
+            continue
+        calls = [c for c in ast.walk(n.test) if isinstance(c, ast.Call) and norm(c.func).split('.')[-1] in ('isclose', 'allclose')
+                 and not any(k.arg in ('atol', 'rtol', 'abs_tol', 'rel_tol') for k in c.keywords) and len(c.args) <= 2]
+        if not calls:
+            continue
+        if any(isinstance(x, ast.Return) for b in n.body for x in ast.walk(b)) or \
+                any(isinstance(x, ast.Return) for b in n.orelse for x in ast.walk(b)):
+            yield n, calls[0]
+
+
+def check_no_tolerance_fast_paths(ctx, rule: str, module_paths, floor: int = 0) -> int:
+    ctx.rule(rule, 'no result is selected by a closeness test with DEFAULT tolerances (np.isclose / np.allclose guarding a return): within 1e-8 '
+                   '(absolute) of the special case the general formula and the shortcut differ, and physical inputs are routinely that small', floor=floor)
+    M = ctx.model
+    n = 0
+    for path in module_paths:
+        mod = M.module(path)
+        fns = [f for c in mod.classes.values() for f in list(c.methods.values()) + list(c.getters.values()) + list(c.setters.values())]
+        fns += list(mod.functions.values())
+        for fn in fns:
+            construct = fn.qualname
+            ctx.instance(rule, construct)
+            n += 1
+            hits = list(tolerance_selected_returns(fn))
+            ctx.obligation(rule, construct, not hits, {'closeness_tests': [norm(h[1])[:60] for h in hits]} if hits else None,
+                           nontrivial=any(isinstance(x, ast.If) for x in ast.walk(fn.node)))
+            for node, call in hits[:1]:
+                ctx.violation(rule, construct, 'the result returned under `%s` is selected by a closeness test with the default absolute tolerance 1e-8: '
+                              'inputs that are merely small (not the special case) take the shortcut' % norm(call)[:70],
+                              fn.path, node.lineno, operand='tolerance-path')
+    return n
+
+
+# ---------------------------------------------------------------------------------------------------------------
+def elementwise_self_normalisations(fn: FuncInfo):
+    """(node, base): `z / np.abs(z)`, `z.conj() / abs(z)`, `np.conj(z) / np.abs(z)` - the phase of every ELEMENT obtained by
+    dividing by its own magnitude: an element that is exactly 0 (a blocked antenna, a zero tap) gives 0/0 = nan where
+    `np.exp(1j * np.angle(z))` gives phase 0."""
+    def base(e):
+        while True:
+            if isinstance(e, ast.Call) and isinstance(e.func, ast.Attribute) and e.func.attr in ('conj', 'conjugate') and not e.args:
+                e = e.func.value
+            elif isinstance(e, ast.Call) and norm(e.func) in ('np.conj', 'np.conjugate', 'numpy.conj') and len(e.args) == 1:
+                e = e.args[0]
+            elif isinstance(e, ast.UnaryOp):
+                e = e.operand
+            else:
+                return e
+    for n in walk_no_nested(fn.node):
+        if isinstance(n, ast.BinOp) and isinstance(n.op, ast.Div) and isinstance(n.right, ast.Call) \
+                and norm(n.right.func) in ('np.abs', 'abs', 'np.absolute', 'numpy.abs') and len(n.right.args) == 1:
+            b = norm(base(n.right.args[0]))
+            if norm(base(n.left)) == b:
+                yield n, b
+
+
+def check_no_self_normalisation(ctx, rule: str, module_paths, floor: int = 0) -> int:
+    ctx.rule(rule, 'the phase of the elements of an array is never obtained as z / |z| (0/0 = nan for an element that is exactly zero)', floor=floor)
+    M = ctx.model
+    n = 0
+    for path in module_paths:
+        mod = M.module(path)
+        fns = [f for c in mod.classes.values() for f in list(c.methods.values()) + list(c.getters.values())] + list(mod.functions.values())
+        for fn in fns:
+            construct = fn.qualname
+            ctx.instance(rule, construct)
+            n += 1
+            hits = list(elementwise_self_normalisations(fn))
+            ctx.obligation(rule, construct, not hits, {'self_normalised': [norm(h[0])[:60] for h in hits]} if hits else None,
+                           nontrivial=any(isinstance(x, ast.BinOp) and isinstance(x.op, ast.Div) for x in ast.walk(fn.node)))
+            for node, b in hits[:1]:
+                ctx.violation(rule, construct, '`%s` divides every element of `%s` by its own magnitude: an element that is exactly zero becomes nan '
+                              '(0/0), and the nan spreads to every result computed from it' % (norm(node)[:60], b), fn.path, node.lineno,
+                              operand='z-over-abs-z')
+    return n
+
+
+# ---------------------------------------------------------------------------------------------------------------
+def mean_count_mismatches(fn: FuncInfo):
+    """(node, base, slice text): a sum / product over a SLICE `X[a:b]` is turned into a mean (divided by, or taken to the power
+    1 / ...) with the element count of the WHOLE array (`X.size`, `len(X)`, `X.shape[0]`): right only when the slice is
+    everything."""
+    def sliced_bases(e):
+        out = {}
+        for x in ast.walk(e):
+            if isinstance(x, ast.Subscript) and isinstance(x.slice, ast.Slice) and (x.slice.upper is not None or x.slice.lower is not None):
+                out[norm(x.value)] = norm(x)
+        return out
+
+    def whole_count(e):
+        """base X when e is X.size / len(X) / X.shape[0] / np.size(X)"""
+        if isinstance(e, ast.Attribute) and e.attr == 'size':
+            return norm(e.value)
+        if isinstance(e, ast.Call) and norm(e.func) in ('len', 'np.size') and len(e.args) == 1:
+            return norm(e.args[0])
+        if isinstance(e, ast.Subscript) and isinstance(e.value, ast.Attribute) and e.value.attr == 'shape':
+            return norm(e.value.value)
+        return None
+
+    def is_reduction(e):
+        return isinstance(e, ast.Call) and (norm(e.func) in ('np.sum', 'sum', 'np.prod', 'np.nansum', 'math.fsum', 'np.cumsum') or
+                                            (isinstance(e.func, ast.Attribute) and e.func.attr in ('sum', 'prod')))
+    for n in walk_no_nested(fn.node):
+        if isinstance(n, ast.BinOp) and isinstance(n.op, ast.Div):
+            reds = [x for x in ast.walk(n.left) if is_reduction(x)]
+            cnt = whole_count(n.right)
+            if cnt and reds:
+                for r in reds:
+                    sb = sliced_bases(r)
+                    if cnt in sb:
+                        yield n, cnt, sb[cnt]
+        if isinstance(n, ast.BinOp) and isinstance(n.op, ast.Pow) and isinstance(n.right, ast.BinOp) and isinstance(n.right.op, ast.Div):
+            cnt = whole_count(n.right.right)
+            reds = [x for x in ast.walk(n.left) if is_reduction(x)]
+            if cnt and reds:
+                for r in reds:
+                    sb = sliced_bases(r)
+                    if cnt in sb:
+                        yield n, cnt, sb[cnt]
+
+
+def check_mean_counts(ctx, rule: str, module_paths, floor: int = 0) -> int:
+    ctx.rule(rule, 'a sum / product over a slice `X[a:b]` is never averaged with the element count of the whole `X` (X.size, len(X), X.shape[0])',
+             floor=floor)
+    M = ctx.model
+    n = 0
+    for path in module_paths:
+        mod = M.module(path)
+        fns = [f for c in mod.classes.values() for f in list(c.methods.values()) + list(c.getters.values())] + list(mod.functions.values())
+        for fn in fns:
+            construct = fn.qualname
+            ctx.instance(rule, construct)
+            n += 1
+            hits = list(mean_count_mismatches(fn))
+            ctx.obligation(rule, construct, not hits, {'mismatch': [(h[1], h[2]) for h in hits]} if hits else None, nontrivial=bool(hits))
+            for node, base, sl in hits[:1]:
+                ctx.violation(rule, construct, '`%s` averages over the slice `%s` with the element count of the whole `%s`: the mean is wrong whenever '
+                              'the slice is not the whole array' % (norm(node)[:70], sl, base), fn.path, node.lineno, operand='count:' + base)
     return n
